@@ -68,23 +68,37 @@ Inductive c15case :=
 (* an entry point was run on an otherwise valid object whose signatures /
    recipients have the given header parts (protected, unprotected,
    per-recipient); it returned normally iff [accepted] *)
-| CApi (rk : regkind) (c : option cfg) (cm : bool) (members : list (list hdr)) (accepted : bool).
+| CApi (rk : regkind) (c : option cfg) (cm : bool) (members : list (list hdr)) (accepted : bool)
+       (* the class it raised, recorded when nothing else can fail before the header check *)
+       (raised : option exn).
 
 Definition unit_eqb (a b : unit) : bool := true.
+
+Fixpoint first_err (l : list (res unit)) : option exn :=
+  match l with
+  | [] => None
+  | Ok _ :: r => first_err r
+  | Err e :: _ => Some e
+  end.
 
 Definition c15_check (x : c15case) : bool :=
   match x with
   | CCheck rk c cm h e s =>
       res_eqb unit_eqb (run_check rk (the_cfg rk c) cm h) e &&
       Bool.eqb (run_spec rk (the_cfg rk c) cm h) s
-  | CApi rk c cm ms acc =>
-      Bool.eqb (forallb (fun parts => is_ok (run_check rk (the_cfg rk c) cm (merge_parts parts))) ms) acc
+  | CApi rk c cm ms acc raised =>
+      let rs := map (fun parts => run_check rk (the_cfg rk c) cm (merge_parts parts)) ms in
+      Bool.eqb (forallb is_ok rs) acc &&
+      match raised with
+      | None => true
+      | Some e => match first_err rs with Some e' => exn_eqb e e' | None => false end
+      end
   end.
 
 Definition c15_show (x : c15case) : list (res unit) * list bool :=
   match x with
   | CCheck rk c cm h _ _ => ([run_check rk (the_cfg rk c) cm h], [run_spec rk (the_cfg rk c) cm h])
-  | CApi rk c cm ms _ =>
+  | CApi rk c cm ms _ _ =>
       (map (fun parts => run_check rk (the_cfg rk c) cm (merge_parts parts)) ms,
        map (fun parts => run_spec rk (the_cfg rk c) cm (merge_parts parts)) ms)
   end.
